@@ -67,3 +67,39 @@ def run_and_validate(name, progs, dbset, target="sqlite", shard=4000, par=6):
             side[s["id"]] = s
     return {"rejects": rejects, "accepted": counts[0], "rejected": counts[1], "skipped": counts[2],
             "events": nevents, "side": side}
+
+def selftest(dbset):
+    """Demonstrate the binding: a recorded execution with one corrupted field (a value, the row
+    order, a column name, a missing row) must be rejected by PrqlTrace at exactly that program."""
+    from progs import from_, filter_, bin_, col, lit, select, item, sort, take, aggregate, agg
+    a, b = col("a"), col("b")
+    progs = [
+        {"id": "st1", "decl": True, "steps": [from_("t"), select(item("k"), item(bin_("+", a, lit(1)), "x"))]},
+        {"id": "st2", "decl": True, "steps": [from_("t"), sort(("desc", "k"))]},
+        {"id": "st3", "decl": True, "steps": [from_("t"), select(item("k"), item("a"))]},
+        {"id": "st4", "decl": True, "steps": [from_("t"), aggregate(item(agg("count", col("k")), "n"))]},
+        {"id": "st5", "decl": True, "steps": [from_("t"), filter_(bin_(">", col("k"), lit(0)))]},
+    ]
+    d = workdir("selftest")
+    write_ndjson(os.path.join(d, "p.ndjson"), progs)
+    build_harness()
+    r = subprocess.run([PV, "run", dbset, os.path.join(d, "p.ndjson"), os.path.join(d, "e.ndjson"),
+                        os.path.join(d, "s.ndjson"), "sqlite"], stdout=subprocess.PIPE, stderr=subprocess.PIPE, text=True)
+    if r.returncode != 0:
+        raise ToolError("selftest: pv run failed " + r.stderr[-1000:])
+    ev = read_ndjson(os.path.join(d, "e.ndjson"))
+    n = 0
+    for e in ev:
+        if e["event"] == "Observe":
+            n += 1
+            if n == 1: e["rows"][0][0][1]["n"] += 1          # a value
+            if n == 2: e["rows"][0] = e["rows"][0][::-1]      # the order
+            if n == 3: e["names"][1] = "zz"                   # a column name
+            if n == 4: e["rows"][1] = []                      # a row removed
+    write_ndjson(os.path.join(d, "bad.ndjson"), ev)
+    out, info = tlc("PrqlTrace", "PrqlTrace.cfg", env={"TRACE": os.path.join(d, "bad.ndjson")}, workers=1, deque=True)
+    got = sorted((r[1], r[2]) for r in tuples(out, "REJECT"))
+    want = [("st1", "rows"), ("st2", "order"), ("st3", "frame"), ("st4", "rows")]
+    if got != want:
+        raise ToolError(f"selftest: corrupted trace not rejected as expected: {got}")
+    return {"corrupted_fields": 4, "rejected": 4, "uncorrupted_program_accepted": True}
